@@ -172,6 +172,7 @@ static unsigned long libc_nr_hit;
 static const char *const libc_nr_name[] = { "l64a", "strtok", "rand", "random", "drand48", "lrand48", "mrand48", "strerror", "localtime",
                                             "gmtime", "asctime", "ctime", "ecvt", "fcvt", "srand", "srandom", "a64l", "strsignal" };
 static int in_lib;
+static int realloc_inplace;      /* command ramode: 1 = a block that is large enough is resized in place */
 #define NR_WRAP(idx, ret, name, params, args) \
   ret name params { static ret (*real) params; if (!real) real = (ret (*) params) dlsym (RTLD_NEXT, #name); \
                     if (in_lib) libc_nr_hit |= 1UL << (idx); return real args; }
@@ -384,7 +385,6 @@ calloc (size_t a, size_t b)
     memset (p, 0, a * b);
   return p;
 }
-static int realloc_inplace;      /* command ramode: 1 = a block that is large enough is resized in place */
 void *
 realloc (void *old, size_t n)
 {
